@@ -434,8 +434,18 @@ func runInput(part string, in []byte, limit uint32, m mode) (out runOut) {
 				r.Accepted(v.Fields)
 			}
 			off += v.Consumed
+		} else if v.Accept {
+			// a stream error for an optional (message-level) defect of a frame that was read completely: the
+			// connection goes on (RFC 7540 §5.4.2), so the frames after it are judged like any others
+			if !unit {
+				r.Accepted(v.Fields)
+			}
+			off += v.Consumed
+		} else if v.Consumed > 0 && !v.EOF && !v.TooLarge && ftype != h2wire.THeaders && ftype != h2wire.TPushPromise && ftype != h2wire.TContinuation {
+			// a stream error for a complete frame outside a header block: skipped, the connection goes on
+			off += v.Consumed
 		} else {
-			strict = false // a stream error: the statement does not define the reader state after it
+			strict = false // a stream error inside a header block: the statement does not define the reader state after it
 		}
 	}
 	return
@@ -798,9 +808,21 @@ func partW(c *ctx, thorough bool) {
 		lens = append(lens, 16385, 65535)
 	}
 	bools := []bool{false, true}
+	// every call that may be refused is also made with a plain, legal DATA frame written on the same Framer
+	// straight after it: a refused call leaves nothing behind that could end up in the next frame
+	after := wop{
+		desc:      "WriteData(1,false,\"hello\") after the call before",
+		do:        func(fr *http2.Framer) error { return fr.WriteData(1, false, []byte("hello")) },
+		want:      &ref.Fields{Type: 0, Stream: 1, Length: 5, Data: []byte("hello"), PadLen: -1},
+		mustWrite: true,
+	}
 	run := func(w wcase) {
 		if c.mine() {
 			c.runW(w)
+			if len(w.ops) == 1 && !w.ops[0].mustWrite {
+				c.rep.Add("cases_W_followed_by_a_legal_write", 1)
+				c.runW(wcase{feature: w.feature + "|then-DATA", illegal: w.illegal, ops: []wop{w.ops[0], after}})
+			}
 		}
 	}
 	// --- WriteData / WriteDataPadded
@@ -1446,6 +1468,9 @@ func lettersS() []letter {
 		{"PP(1,+EH)", h2wire.Append(nil, 5, 4, 1, append([]byte{0, 0, 0, 2}, lit...))},
 		{"CONT(1,+EH,101 bytes > limit 100)", over},
 		{"TRUNCATED", h2wire.Headers(1, lit, false, true, nil, -1)[:11]},
+		// a complete block whose list is malformed (upper-case name): with ReadMetaHeaders a stream error, and the
+		// blocks after it must still be decoded and handed out
+		{"HEADERS(5,+EH,upper-case name)", h2wire.Headers(5, []byte{0x00, 0x01, 'A', 0x01, 'b'}, false, true, nil, -1)},
 	}
 	return ls
 }
